@@ -1,0 +1,666 @@
+//! Verification-build primitives (`RUSTFLAGS="--cfg excsn_fibre_verif"`).
+//!
+//! Third primitive set next to `real.rs` / `mocked.rs`: single-threaded model
+//! types whose every synchronisation operation is a *scheduling point*. A
+//! bounded model checker (Kani) executes one logical thread; at each scheduling
+//! point the solver may run a complete operation of another logical thread
+//! (an "actor") registered by the harness. Blocking (`park`) by the top-level
+//! thread runs the remaining actors and otherwise ends the path as *stuck*.
+//!
+//! Keep the export list in lockstep with `real.rs`. Never compiled without the
+//! cfg; normal builds are unaffected.
+
+#![allow(dead_code)]
+
+pub(crate) use std::sync::atomic::Ordering;
+pub(crate) use std::sync::Arc;
+
+/// Collapses spin budgets and shrinks the model-check-sized tables, exactly as
+/// the loom build does.
+pub(crate) const IS_LOOM: bool = true;
+
+pub(crate) use self::thread::Thread;
+
+/// Scheduler and control surface; re-exported as `fibre::__verif`.
+pub mod sched {
+  use std::sync::atomic::{AtomicBool, AtomicU32, AtomicU64, AtomicUsize, Ordering::Relaxed};
+
+  pub const MAX_THREADS: usize = 4;
+
+  static ENABLED: AtomicBool = AtomicBool::new(false);
+  /// logical thread currently running (0 = top-level harness thread)
+  static CUR: AtomicUsize = AtomicUsize::new(0);
+  static TOKENS: [AtomicBool; MAX_THREADS] = [
+    AtomicBool::new(false),
+    AtomicBool::new(false),
+    AtomicBool::new(false),
+    AtomicBool::new(false),
+  ];
+  /// number of actors registered / already started
+  static ACTORS: AtomicU32 = AtomicU32::new(0);
+  static STARTED: AtomicU32 = AtomicU32::new(0);
+  static DEPTH: AtomicU32 = AtomicU32::new(0);
+  static MAX_DEPTH: AtomicU32 = AtomicU32::new(1);
+  static STUCK: AtomicBool = AtomicBool::new(false);
+  static STUCK_IS_BUG: AtomicBool = AtomicBool::new(false);
+  static SPINS: AtomicU32 = AtomicU32::new(0);
+  static SPIN_BUDGET: AtomicU32 = AtomicU32::new(2);
+  static SPURIOUS_CAS: AtomicU32 = AtomicU32::new(0);
+  static SPURIOUS_UNPARK: AtomicU32 = AtomicU32::new(0);
+  static TIMEOUTS_FIRED: AtomicU32 = AtomicU32::new(0);
+  /// scheduling points passed by the top-level thread since `install`
+  static POINTS: AtomicU32 = AtomicU32::new(0);
+  /// value of POINTS when actor i started (u32::MAX = not started)
+  static STARTED_AT: [AtomicU32; MAX_THREADS] = [
+    AtomicU32::new(u32::MAX),
+    AtomicU32::new(u32::MAX),
+    AtomicU32::new(u32::MAX),
+    AtomicU32::new(u32::MAX),
+  ];
+  /// virtual clock: nanoseconds since an arbitrary epoch, split as Duration does
+  static CLOCK_SECS: AtomicU64 = AtomicU64::new(1);
+  static CLOCK_NANOS: AtomicU32 = AtomicU32::new(0);
+
+  static mut HOOK: Option<fn(u32)> = None;
+
+  #[cfg(kani)]
+  #[inline(never)]
+  pub fn choose() -> bool {
+    kani::any()
+  }
+  #[cfg(not(kani))]
+  pub fn choose() -> bool {
+    false
+  }
+
+  /// Register `n` actors (logical threads 1..=n). `hook(i)` performs actor i's
+  /// complete operation. Actors start in index order.
+  pub fn install(hook: fn(u32), n: u32, max_depth: u32) {
+    assert!((n as usize) < MAX_THREADS);
+    unsafe {
+      HOOK = Some(hook);
+    }
+    ACTORS.store(n, Relaxed);
+    STARTED.store(0, Relaxed);
+    DEPTH.store(0, Relaxed);
+    MAX_DEPTH.store(max_depth, Relaxed);
+    POINTS.store(0, Relaxed);
+    let mut i = 0;
+    while i < MAX_THREADS {
+      STARTED_AT[i].store(u32::MAX, Relaxed);
+      i += 1;
+    }
+    ENABLED.store(true, Relaxed);
+  }
+  pub fn uninstall() {
+    ENABLED.store(false, Relaxed);
+    ACTORS.store(0, Relaxed);
+    STARTED.store(0, Relaxed);
+  }
+  pub fn set_stuck_is_bug(b: bool) {
+    STUCK_IS_BUG.store(b, Relaxed);
+  }
+  pub fn set_spin_budget(n: u32) {
+    SPIN_BUDGET.store(n, Relaxed);
+  }
+  pub fn allow_spurious_cas(n: u32) {
+    SPURIOUS_CAS.store(n, Relaxed);
+  }
+  pub fn allow_spurious_unpark(n: u32) {
+    SPURIOUS_UNPARK.store(n, Relaxed);
+  }
+  pub fn pending() -> u32 {
+    ACTORS.load(Relaxed) - STARTED.load(Relaxed)
+  }
+  pub fn started() -> u32 {
+    STARTED.load(Relaxed)
+  }
+  pub fn points() -> u32 {
+    POINTS.load(Relaxed)
+  }
+  pub fn started_at(i: u32) -> u32 {
+    STARTED_AT[i as usize].load(Relaxed)
+  }
+  pub fn timeouts_fired() -> u32 {
+    TIMEOUTS_FIRED.load(Relaxed)
+  }
+  pub fn current() -> usize {
+    CUR.load(Relaxed)
+  }
+  pub fn token(i: usize) -> bool {
+    TOKENS[i].load(Relaxed)
+  }
+  pub fn clear_tokens() {
+    let mut i = 0;
+    while i < MAX_THREADS {
+      TOKENS[i].store(false, Relaxed);
+      i += 1;
+    }
+  }
+  pub(crate) fn unpark(i: usize) {
+    TOKENS[i].store(true, Relaxed);
+  }
+
+  /// Run every actor that has not started yet, now (harness use: "the other
+  /// threads finish").
+  pub fn run_pending() {
+    while ENABLED.load(Relaxed) && pending() > 0 {
+      run_one();
+    }
+  }
+
+  fn run_one() {
+    let i = STARTED.load(Relaxed) + 1;
+    STARTED.store(i, Relaxed);
+    STARTED_AT[i as usize].store(POINTS.load(Relaxed), Relaxed);
+    let prev = CUR.load(Relaxed);
+    CUR.store(i as usize, Relaxed);
+    DEPTH.store(DEPTH.load(Relaxed) + 1, Relaxed);
+    let h = unsafe { HOOK.unwrap() };
+    h(i);
+    DEPTH.store(DEPTH.load(Relaxed) - 1, Relaxed);
+    CUR.store(prev, Relaxed);
+  }
+
+  /// A visible synchronisation point of the running logical thread.
+  #[inline(never)]
+  pub fn point() {
+    if !ENABLED.load(Relaxed) {
+      return;
+    }
+    if DEPTH.load(Relaxed) == 0 {
+      POINTS.store(POINTS.load(Relaxed) + 1, Relaxed);
+    }
+    if DEPTH.load(Relaxed) < MAX_DEPTH.load(Relaxed) && pending() > 0 && choose() {
+      run_one();
+    }
+  }
+
+  /// The current path cannot happen (e.g. an actor would have to block).
+  pub fn infeasible() {
+    #[cfg(kani)]
+    kani::assume(false);
+    #[cfg(not(kani))]
+    panic!("VERIF-INFEASIBLE: schedule outside the modelled class");
+  }
+
+  fn stuck() {
+    STUCK.store(true, Relaxed);
+    if STUCK_IS_BUG.load(Relaxed) {
+      panic!("VERIF-STUCK: thread blocked forever although its operation must complete");
+    }
+    infeasible();
+  }
+
+  pub(crate) fn park() {
+    let me = CUR.load(Relaxed);
+    point();
+    if TOKENS[me].swap(false, Relaxed) {
+      return;
+    }
+    if SPURIOUS_UNPARK.load(Relaxed) > 0 && choose() {
+      SPURIOUS_UNPARK.store(SPURIOUS_UNPARK.load(Relaxed) - 1, Relaxed);
+      return;
+    }
+    if DEPTH.load(Relaxed) > 0 {
+      // a nested actor would block: not in the class
+      infeasible();
+      return;
+    }
+    // the top-level thread is blocked: only the others can make progress
+    while ENABLED.load(Relaxed) && pending() > 0 {
+      run_one();
+      if TOKENS[me].swap(false, Relaxed) {
+        return;
+      }
+    }
+    stuck();
+  }
+
+  /// Returns after an unpark, a spurious wake, or the timeout (solver's choice).
+  pub(crate) fn park_timeout(d: std::time::Duration) {
+    let me = CUR.load(Relaxed);
+    point();
+    if TOKENS[me].swap(false, Relaxed) {
+      return;
+    }
+    if DEPTH.load(Relaxed) == 0 {
+      // either the timeout fires first, or the others run first
+      if !(pending() > 0 && choose()) {
+        advance(d);
+        TIMEOUTS_FIRED.store(TIMEOUTS_FIRED.load(Relaxed) + 1, Relaxed);
+        return;
+      }
+      while ENABLED.load(Relaxed) && pending() > 0 {
+        run_one();
+        if TOKENS[me].swap(false, Relaxed) {
+          return;
+        }
+      }
+    }
+    advance(d);
+    TIMEOUTS_FIRED.store(TIMEOUTS_FIRED.load(Relaxed) + 1, Relaxed);
+  }
+
+  /// spin / yield: waiting for somebody else
+  pub(crate) fn spin() {
+    if !ENABLED.load(Relaxed) {
+      let n = SPINS.load(Relaxed) + 1;
+      SPINS.store(n, Relaxed);
+      if n > SPIN_BUDGET.load(Relaxed) {
+        infeasible();
+      }
+      return;
+    }
+    if DEPTH.load(Relaxed) < MAX_DEPTH.load(Relaxed) && pending() > 0 {
+      run_one();
+      return;
+    }
+    let n = SPINS.load(Relaxed) + 1;
+    SPINS.store(n, Relaxed);
+    if n > SPIN_BUDGET.load(Relaxed) {
+      if DEPTH.load(Relaxed) == 0 {
+        stuck();
+      } else {
+        infeasible();
+      }
+    }
+  }
+  pub fn reset_spins() {
+    SPINS.store(0, Relaxed);
+  }
+
+  pub(crate) fn spurious_cas_failure() -> bool {
+    let n = SPURIOUS_CAS.load(Relaxed);
+    if n > 0 && choose() {
+      SPURIOUS_CAS.store(n - 1, Relaxed);
+      true
+    } else {
+      false
+    }
+  }
+
+  pub fn now() -> std::time::Duration {
+    std::time::Duration::new(CLOCK_SECS.load(Relaxed), CLOCK_NANOS.load(Relaxed))
+  }
+  pub fn set_clock(d: std::time::Duration) {
+    CLOCK_SECS.store(d.as_secs(), Relaxed);
+    CLOCK_NANOS.store(d.subsec_nanos(), Relaxed);
+  }
+  pub fn advance(d: std::time::Duration) {
+    match now().checked_add(d) {
+      Some(t) => set_clock(t),
+      None => infeasible(),
+    }
+  }
+}
+
+pub(crate) mod hint {
+  #[inline]
+  pub fn spin_loop() {
+    super::sched::spin();
+  }
+}
+
+pub(crate) fn fence(_o: Ordering) {
+  sched::point();
+}
+
+macro_rules! verif_int_atomic {
+  ($name:ident, $inner:ty, $t:ty) => {
+    #[derive(Debug, Default)]
+    pub(crate) struct $name($inner);
+    impl $name {
+      #[inline]
+      pub const fn new(v: $t) -> Self {
+        Self(<$inner>::new(v))
+      }
+      #[inline]
+      pub fn load(&self, o: Ordering) -> $t {
+        sched::point();
+        self.0.load(o)
+      }
+      #[inline]
+      pub fn store(&self, v: $t, o: Ordering) {
+        sched::point();
+        self.0.store(v, o)
+      }
+      #[inline]
+      pub fn swap(&self, v: $t, o: Ordering) -> $t {
+        sched::point();
+        self.0.swap(v, o)
+      }
+      #[inline]
+      pub fn compare_exchange(&self, c: $t, n: $t, s: Ordering, f: Ordering) -> Result<$t, $t> {
+        sched::point();
+        self.0.compare_exchange(c, n, s, f)
+      }
+      #[inline]
+      pub fn compare_exchange_weak(&self, c: $t, n: $t, s: Ordering, f: Ordering) -> Result<$t, $t> {
+        sched::point();
+        if sched::spurious_cas_failure() {
+          return Err(self.0.load(f));
+        }
+        self.0.compare_exchange(c, n, s, f)
+      }
+      #[inline]
+      pub fn fetch_add(&self, v: $t, o: Ordering) -> $t {
+        sched::point();
+        self.0.fetch_add(v, o)
+      }
+      #[inline]
+      pub fn fetch_sub(&self, v: $t, o: Ordering) -> $t {
+        sched::point();
+        self.0.fetch_sub(v, o)
+      }
+      #[inline]
+      pub fn fetch_and(&self, v: $t, o: Ordering) -> $t {
+        sched::point();
+        self.0.fetch_and(v, o)
+      }
+      #[inline]
+      pub fn fetch_or(&self, v: $t, o: Ordering) -> $t {
+        sched::point();
+        self.0.fetch_or(v, o)
+      }
+      #[inline]
+      pub fn fetch_max(&self, v: $t, o: Ordering) -> $t {
+        sched::point();
+        self.0.fetch_max(v, o)
+      }
+      #[inline]
+      pub fn fetch_min(&self, v: $t, o: Ordering) -> $t {
+        sched::point();
+        self.0.fetch_min(v, o)
+      }
+      #[inline]
+      pub fn get_mut(&mut self) -> &mut $t {
+        self.0.get_mut()
+      }
+      #[inline]
+      pub fn into_inner(self) -> $t {
+        self.0.into_inner()
+      }
+    }
+  };
+}
+verif_int_atomic!(AtomicU8, std::sync::atomic::AtomicU8, u8);
+verif_int_atomic!(AtomicU32, std::sync::atomic::AtomicU32, u32);
+verif_int_atomic!(AtomicU64, std::sync::atomic::AtomicU64, u64);
+verif_int_atomic!(AtomicUsize, std::sync::atomic::AtomicUsize, usize);
+
+#[derive(Debug, Default)]
+pub(crate) struct AtomicBool(std::sync::atomic::AtomicBool);
+impl AtomicBool {
+  #[inline]
+  pub const fn new(v: bool) -> Self {
+    Self(std::sync::atomic::AtomicBool::new(v))
+  }
+  #[inline]
+  pub fn load(&self, o: Ordering) -> bool {
+    sched::point();
+    self.0.load(o)
+  }
+  #[inline]
+  pub fn store(&self, v: bool, o: Ordering) {
+    sched::point();
+    self.0.store(v, o)
+  }
+  #[inline]
+  pub fn swap(&self, v: bool, o: Ordering) -> bool {
+    sched::point();
+    self.0.swap(v, o)
+  }
+  #[inline]
+  pub fn compare_exchange(&self, c: bool, n: bool, s: Ordering, f: Ordering) -> Result<bool, bool> {
+    sched::point();
+    self.0.compare_exchange(c, n, s, f)
+  }
+  #[inline]
+  pub fn compare_exchange_weak(&self, c: bool, n: bool, s: Ordering, f: Ordering) -> Result<bool, bool> {
+    sched::point();
+    if sched::spurious_cas_failure() {
+      return Err(self.0.load(f));
+    }
+    self.0.compare_exchange(c, n, s, f)
+  }
+  #[inline]
+  pub fn fetch_or(&self, v: bool, o: Ordering) -> bool {
+    sched::point();
+    self.0.fetch_or(v, o)
+  }
+  #[inline]
+  pub fn fetch_and(&self, v: bool, o: Ordering) -> bool {
+    sched::point();
+    self.0.fetch_and(v, o)
+  }
+  #[inline]
+  pub fn get_mut(&mut self) -> &mut bool {
+    self.0.get_mut()
+  }
+  #[inline]
+  pub fn into_inner(self) -> bool {
+    self.0.into_inner()
+  }
+}
+
+#[derive(Debug)]
+pub(crate) struct AtomicPtr<T>(std::sync::atomic::AtomicPtr<T>);
+impl<T> Default for AtomicPtr<T> {
+  fn default() -> Self {
+    Self::new(std::ptr::null_mut())
+  }
+}
+impl<T> AtomicPtr<T> {
+  #[inline]
+  pub const fn new(v: *mut T) -> Self {
+    Self(std::sync::atomic::AtomicPtr::new(v))
+  }
+  #[inline]
+  pub fn load(&self, o: Ordering) -> *mut T {
+    sched::point();
+    self.0.load(o)
+  }
+  #[inline]
+  pub fn store(&self, v: *mut T, o: Ordering) {
+    sched::point();
+    self.0.store(v, o)
+  }
+  #[inline]
+  pub fn swap(&self, v: *mut T, o: Ordering) -> *mut T {
+    sched::point();
+    self.0.swap(v, o)
+  }
+  #[inline]
+  pub fn compare_exchange(&self, c: *mut T, n: *mut T, s: Ordering, f: Ordering) -> Result<*mut T, *mut T> {
+    sched::point();
+    self.0.compare_exchange(c, n, s, f)
+  }
+  #[inline]
+  pub fn compare_exchange_weak(&self, c: *mut T, n: *mut T, s: Ordering, f: Ordering) -> Result<*mut T, *mut T> {
+    sched::point();
+    if sched::spurious_cas_failure() {
+      return Err(self.0.load(f));
+    }
+    self.0.compare_exchange(c, n, s, f)
+  }
+  #[inline]
+  pub fn get_mut(&mut self) -> &mut *mut T {
+    self.0.get_mut()
+  }
+  #[inline]
+  pub fn into_inner(self) -> *mut T {
+    self.0.into_inner()
+  }
+}
+
+/// Mutex wearing parking_lot's API. Never parks: acquiring a lock that is held
+/// (by a preempted logical thread) makes the path infeasible.
+pub(crate) struct Mutex<T> {
+  locked: std::cell::Cell<bool>,
+  value: std::cell::UnsafeCell<T>,
+}
+unsafe impl<T: Send> Send for Mutex<T> {}
+unsafe impl<T: Send> Sync for Mutex<T> {}
+impl<T> std::fmt::Debug for Mutex<T> {
+  fn fmt(&self, f: &mut std::fmt::Formatter<'_>) -> std::fmt::Result {
+    f.write_str("Mutex")
+  }
+}
+impl<T: Default> Default for Mutex<T> {
+  fn default() -> Self {
+    Self::new(T::default())
+  }
+}
+pub(crate) struct MutexGuard<'a, T> {
+  m: &'a Mutex<T>,
+}
+impl<T> Mutex<T> {
+  #[inline]
+  pub const fn new(value: T) -> Self {
+    Self { locked: std::cell::Cell::new(false), value: std::cell::UnsafeCell::new(value) }
+  }
+  #[inline]
+  pub fn lock(&self) -> MutexGuard<'_, T> {
+    sched::point();
+    if self.locked.get() {
+      sched::infeasible();
+    }
+    self.locked.set(true);
+    MutexGuard { m: self }
+  }
+  #[inline]
+  pub fn try_lock(&self) -> Option<MutexGuard<'_, T>> {
+    sched::point();
+    if self.locked.get() {
+      None
+    } else {
+      self.locked.set(true);
+      Some(MutexGuard { m: self })
+    }
+  }
+  #[inline]
+  pub fn is_locked(&self) -> bool {
+    self.locked.get()
+  }
+  #[inline]
+  pub fn get_mut(&mut self) -> &mut T {
+    self.value.get_mut()
+  }
+  #[inline]
+  pub fn into_inner(self) -> T {
+    self.value.into_inner()
+  }
+}
+impl<'a, T> std::ops::Deref for MutexGuard<'a, T> {
+  type Target = T;
+  #[inline]
+  fn deref(&self) -> &T {
+    unsafe { &*self.m.value.get() }
+  }
+}
+impl<'a, T> std::ops::DerefMut for MutexGuard<'a, T> {
+  #[inline]
+  fn deref_mut(&mut self) -> &mut T {
+    unsafe { &mut *self.m.value.get() }
+  }
+}
+impl<'a, T> Drop for MutexGuard<'a, T> {
+  #[inline]
+  fn drop(&mut self) {
+    self.m.locked.set(false);
+  }
+}
+
+pub(crate) mod thread {
+  use std::time::Duration;
+
+  #[derive(Clone, Debug)]
+  pub struct Thread {
+    id: usize,
+  }
+  impl Thread {
+    #[inline]
+    pub fn unpark(&self) {
+      super::sched::point();
+      super::sched::unpark(self.id);
+    }
+    pub fn id(&self) -> usize {
+      self.id
+    }
+  }
+  #[inline]
+  pub fn current() -> Thread {
+    Thread { id: super::sched::current() }
+  }
+  #[inline]
+  pub fn park() {
+    super::sched::park();
+  }
+  #[inline]
+  pub fn park_timeout(d: Duration) {
+    super::sched::park_timeout(d);
+  }
+  #[inline]
+  pub fn yield_now() {
+    super::sched::spin();
+  }
+  #[inline]
+  pub fn sleep(d: Duration) {
+    super::sched::advance(d);
+  }
+  // Only `#[cfg(test)]` code spawns threads; keep those tests compiling.
+  pub use std::thread::{spawn, JoinHandle};
+}
+
+/// Virtual monotonic clock with `std::time::Instant`'s API subset.
+#[derive(Clone, Copy, Debug, PartialEq, Eq, PartialOrd, Ord, Hash)]
+pub struct Instant(std::time::Duration);
+impl Instant {
+  #[inline]
+  pub fn now() -> Instant {
+    Instant(sched::now())
+  }
+  #[inline]
+  pub fn checked_add(&self, d: std::time::Duration) -> Option<Instant> {
+    self.0.checked_add(d).map(Instant)
+  }
+  #[inline]
+  pub fn checked_sub(&self, d: std::time::Duration) -> Option<Instant> {
+    self.0.checked_sub(d).map(Instant)
+  }
+  #[inline]
+  pub fn duration_since(&self, earlier: Instant) -> std::time::Duration {
+    self.0.saturating_sub(earlier.0)
+  }
+  #[inline]
+  pub fn saturating_duration_since(&self, earlier: Instant) -> std::time::Duration {
+    self.0.saturating_sub(earlier.0)
+  }
+  #[inline]
+  pub fn checked_duration_since(&self, earlier: Instant) -> Option<std::time::Duration> {
+    self.0.checked_sub(earlier.0)
+  }
+  #[inline]
+  pub fn elapsed(&self) -> std::time::Duration {
+    sched::now().saturating_sub(self.0)
+  }
+}
+impl std::ops::Add<std::time::Duration> for Instant {
+  type Output = Instant;
+  fn add(self, d: std::time::Duration) -> Instant {
+    Instant(self.0 + d)
+  }
+}
+impl std::ops::Sub<std::time::Duration> for Instant {
+  type Output = Instant;
+  fn sub(self, d: std::time::Duration) -> Instant {
+    Instant(self.0 - d)
+  }
+}
+impl std::ops::Sub<Instant> for Instant {
+  type Output = std::time::Duration;
+  fn sub(self, o: Instant) -> std::time::Duration {
+    self.0.saturating_sub(o.0)
+  }
+}
